@@ -191,7 +191,8 @@ def _null_test(f, cond, uses=None):
     return None
 
 
-def wipe_summaries(module, count_plain_stores=lambda f: True, sinks=None, limit=4096, mode="wipe", allocas=None):
+def wipe_summaries(module, count_plain_stores=lambda f: True, sinks=None, limit=4096, mode="wipe", allocas=None,
+                   external=None):
     """Bottom-up must-wipe summaries for every defined function.
 
     A byte of a pointer parameter's pointee is "wiped" on a path if it was
@@ -204,6 +205,17 @@ def wipe_summaries(module, count_plain_stores=lambda f: True, sinks=None, limit=
     constructor defines a whole member on every path."""
     sinks = dict(WIPE_SINKS if sinks is None else sinks)
     summ = {}
+    # summaries of functions that are not defined in the IR (assembly units), computed elsewhere:
+    # {name: (must {param index: offsets}, maywrite {param index: bool})}
+    for name, (must, mayw) in (external or {}).items():
+        fd = module.funcs.get(name)
+        if fd is not None and fd.decl:
+            ws = WipeSummary()
+            ws.must = dict(must)
+            # the interpreter saw every store of the function (single path to ret): an argument
+            # object without a recorded store is not written
+            ws.maywrite = {k: bool(mayw.get(k)) for k in range(len(fd.param_ty))}
+            summ[name] = ws
     for f in module.bottom_up():
         summ[f.name] = _wipe_function(module, f, summ, sinks, count_plain_stores(f), limit, mode, allocas)
     return summ
